@@ -1,4 +1,5 @@
 import TwistedModel.Irc.Split
+import TwistedModel.Irc.Ctcp
 /-!
 Driver glue for C43.  Text: code points in decimal joined by `,` (`-` = empty; surrogates are
 not text).  Octets: lower-case hex (`-` = empty).
@@ -14,13 +15,26 @@ not text).  Octets: lower-case hex (`-` = empty).
   `C43 send <msgType> <user> <message> <length|none> <nicklen> <table>`
                                                                  → written lines (hex) joined by `;` (`~` = nothing written) | `!raised ValueError`
 
+  `C43 strex <msgs>`                → `<ctcpStringify msgs>|<extended>|<normal>` of `ctcpExtract(ctcpStringify(msgs))`
+  `C43 mixed <msgs> <normals>`      → the same for `n0 + ctcpStringify([m1]) + n1 + … + ctcpStringify([mk]) + nk`
+  `C43 extract <text>`              → `<extended>|<normal>` of `ctcpExtract(text)`
+  `C43 recv p|n <text>`             → the calls the client makes for a PRIVMSG / NOTICE with that trailing text | `!raised IndexError`
+  `C43 e2e q|r <user> <msgs> <nicklen> <table>`
+                                    → `<lines written by ctcpMakeQuery/ctcpMakeReply>|<calls made by the peer fed those lines>` | `!raised ValueError`
+
+`<msgs>`: `~` (none) or messages joined by `;`, each `<tag>/n` (data None), `<tag>/t/<text>` (str), `<tag>/l/<text>:<text>…` (list; `~` = `[]`).
+`<normals>`: texts joined by `;` (one more than messages).  `<extended>`: `~` or `<tag>/N` | `<tag>/T<text>` joined by `;`.
+`<normal>`: `~` or texts joined by `;`.  Calls: `~` or `Q:<extended>`, `R:<extended>`, `P:<text>`, `N:<text>` joined by `+`.
+
 `<table>` is the behaviour of the stdlib parameter `textwrap.wrap` on the calls the real code made:
 `~` (no call) or entries joined by `|`, each `<text>/<width>/<chunk>;<chunk>…` (`~` = `[]`).
 A call the model makes that is not in the table → `!no-wrap-entry`; an entry that breaks the
-contract `wrapEntryOk` → `!wrap-contract`.
+contract `wrapEntryOk` (lines within the width, only whitespace differs) or `wholeEntryOk` (a fitting line without
+tab/LF/VT/FF/CR that does not end in whitespace is returned whole) → `!wrap-contract`.
 -/
 namespace Twisted.Drv.C43
 open Twisted.Irc.Split
+open Twisted.Irc.Ctcp
 
 def decText (s : String) : Option Text :=
   if s = "-" then some [] else
@@ -78,10 +92,79 @@ def showLines (ls : List (List UInt8)) : String :=
 def callsCovered (tbl : List Entry) (s : Text) (width : Int) : Bool :=
   width ≤ 0 || (splitOn NL s).all fun line => (lookup tbl line width.toNat).isSome
 
-def tableOk (tbl : List Entry) : Bool := tbl.all fun e => e.width == 0 || wrapEntryOk e.text e.width e.chunks
+def tableOk (tbl : List Entry) : Bool :=
+  tbl.all fun e => e.width == 0 || (wrapEntryOk e.text e.width e.chunks && wholeEntryOk e.text e.width e.chunks)
+
+def decData (kind : String) (rest : List String) : Option Data :=
+  match kind, rest with
+  | "n", [] => some .none
+  | "t", [t] => (decText t).map .text
+  | "l", [ts] => if ts = "~" then some (.list []) else ((ts.splitOn ":").mapM decText).map .list
+  | _, _ => none
+
+def decMsg (s : String) : Option (Text × Data) :=
+  match s.splitOn "/" with
+  | tag :: kind :: rest => do
+    let tag ← decText tag
+    let d ← decData kind rest
+    pure (tag, d)
+  | _ => none
+
+def decMsgs (s : String) : Option (List (Text × Data)) :=
+  if s = "~" then some [] else (s.splitOn ";").mapM decMsg
+
+def showExt (es : List (Text × Option Text)) : String :=
+  if es.isEmpty then "~" else ";".intercalate (es.map fun e =>
+    encText e.1 ++ "/" ++ (match e.2 with | none => "N" | some d => "T" ++ encText d))
+
+def showExtract (r : List (Text × Option Text) × List Text) : String :=
+  showExt r.1 ++ "|" ++ showChunks r.2
+
+def showEvent : Event → String
+  | .query ms => "Q:" ++ showExt ms
+  | .reply ms => "R:" ++ showExt ms
+  | .privmsg t => "P:" ++ encText t
+  | .noticed t => "N:" ++ encText t
+
+def showEvents (r : Except RecvErr (List Event)) : String :=
+  match r with
+  | .error .index => "!raised IndexError"
+  | .ok evs => if evs.isEmpty then "~" else "+".intercalate (evs.map showEvent)
+
+/-- `n0 + ctcpStringify([m1]) + n1 + …` -/
+def mixedText : List Text → List (Text × Data) → Option Text
+  | [n0], [] => some n0
+  | n0 :: ns, m :: ms => (mixedText ns ms).map fun r => n0 ++ ctcpStringify [m] ++ r
+  | _, _ => none
 
 def handle (args : List String) : String :=
   match args with
+  | ["strex", ms] => match decMsgs ms with
+    | some ms => encText (ctcpStringify ms) ++ "|" ++ showExtract (ctcpExtract (ctcpStringify ms))
+    | none => "bad-op"
+  | ["mixed", ms, ns] => match decMsgs ms, decChunks ns with
+    | some ms, some ns => match mixedText ns ms with
+      | some t => encText t ++ "|" ++ showExtract (ctcpExtract t)
+      | none => "bad-op"
+    | _, _ => "bad-op"
+  | ["extract", t] => match decText t with
+    | some t => showExtract (ctcpExtract t)
+    | none => "bad-op"
+  | ["recv", k, t] => match decText t with
+    | some t => if k = "p" then showEvents (recvPrivmsg t) else if k = "n" then showEvents (recvNotice t) else "bad-op"
+    | none => "bad-op"
+  | ["e2e", k, user, ms, nick, tbl] =>
+    match decText user, decMsgs ms, nick.toNat?, decTable tbl with
+    | some user, some ms, some nick, some tbl =>
+      if k ≠ "q" ∧ k ≠ "r" then "bad-op" else
+      let mt := if k = "q" then PRIVMSG else NOTICE
+      let text := ctcpStringify ms
+      if !tableOk tbl then "!wrap-contract"
+      else if !callsCovered tbl text (wrapWidth nick mt user none) then "!no-wrap-entry"
+      else match sendMessage (tableWrap tbl) nick mt user text none, sendParts (tableWrap tbl) nick mt user text none with
+        | .ok ls, .ok ps => showLines ls ++ "|" ++ showEvents (recvAll (if k = "q" then recvPrivmsg else recvNotice) ps)
+        | _, _ => "!raised ValueError"
+    | _, _, _, _ => "bad-op"
   | ["lowq", t] => match decText t with
     | some t => encText (lowQuote t) ++ "|" ++ encText (lowDequote (lowQuote t))
     | none => "bad-op"
